@@ -1,7 +1,6 @@
 import Model.Mpi
 import Mathlib.Algebra.Order.Ring.Rat
 import Mathlib.Algebra.BigOperators.Group.List.Basic
-import Mathlib.Algebra.Order.BigOperators.Group.List
 /-! `striped_array_mean` equals the mean of the whole array. -/
 namespace Ens.Mpi
 
@@ -26,11 +25,9 @@ theorem length_flatMap_nat {γ : Type} (l : List Nat) (f : Nat → List γ) :
   | nil => rfl
   | cons a l ih => simp [List.flatMap_cons, ih]
 
-/-- with non-negative local sums (the guard `assert global_sum >= local_sum` then holds) the
-    striped mean is the mean of the whole array, in whatever order it is concatenated -/
+/-- the striped mean is the mean of the whole array, in whatever order it is concatenated -/
 theorem stripedMean_eq (w : Nat) (hw : 0 < w) (locals : Nat → List Rat) (xs : List Rat)
-    (hp : xs.Perm ((List.range w).flatMap locals)) (hne : xs ≠ [])
-    (hnn : ∀ r, r < w → 0 ≤ (locals r).sum) :
+    (hp : xs.Perm ((List.range w).flatMap locals)) (hne : xs ≠ []) :
     stripedMean w locals = .ok (xs.sum / (xs.length : Rat)) := by
   have hsum : xs.sum = ((List.range w).map fun r => (locals r).sum).sum := by
     rw [hp.sum_eq, sum_flatMap_rat]
@@ -50,21 +47,22 @@ theorem stripedMean_eq (w : Nat) (hw : 0 < w) (locals : Nat → List Rat) (xs : 
     rw [hsum, hlen]
   · simp only [h1, if_false]
     rw [sumTo_eq_sum_map, sumTo_eq_sum_map, ← hsum, ← hlen]
-    have herr : firstErr w (fun r => if xs.sum < (locals r).sum then some Err.assertion else none) = none := by
-      unfold firstErr
-      rw [List.findSome?_eq_none_iff]
-      intro r hr
-      have hr' := List.mem_range.mp hr
-      have hle : (locals r).sum ≤ xs.sum := by
-        rw [hsum]
-        apply List.single_le_sum
-        · intro x hx
-          obtain ⟨r', hr', rfl⟩ := List.mem_map.mp hx
-          exact hnn r' (List.mem_range.mp hr')
-        · exact List.mem_map.mpr ⟨r, hr, rfl⟩
-      simp [not_lt.mpr hle]
-    rw [herr]
     have : xs.length ≠ 0 := by omega
     simp only [this, if_false]
+
+/-- an empty striped array has no mean (`nan`) -/
+theorem stripedMean_empty (w : Nat) (hw : 0 < w) (locals : Nat → List Rat)
+    (he : ∀ r, r < w → locals r = []) : stripedMean w locals = .error .nan := by
+  unfold stripedMean
+  by_cases h1 : w = 1
+  · subst h1; simp [he 0 hw]
+  · simp only [h1, if_false]
+    have : (Ens.sumTo w fun r => (locals r).length) = 0 := by
+      rw [sumTo_eq_sum_map]
+      apply List.sum_eq_zero
+      intro x hx
+      obtain ⟨r, hr, rfl⟩ := List.mem_map.mp hx
+      rw [he r (List.mem_range.mp hr)]; rfl
+    simp [this]
 
 end Ens.Mpi
